@@ -775,58 +775,77 @@ Lemma step_rp cf s a p : s_rp s = Some p ->
 Proof.
   intros Hp. unfold step.
   assert (H : exists q, s_rp (fst (act cf s a)) = Some q /\ rp_static q = rp_static p).
-  { destruct a; cbn [act]; eauto.
-    - pose proof (do_write_frame cf s key len sum) as (Hf & _).
+  { destruct a; cbn [act].
+    - (* AWrite *) pose proof (do_write_frame cf s key len sum) as (Hf & _).
       destruct (do_write cf s key len sum) as [s1 code]. cbn [fst] in *. rewrite Hf. eauto.
-    - destruct (nth_error (s_net s) i); [|eauto]. cbn [fst]. apply deliver_dgram_rp. exact Hp.
-    - destruct (nth_error (s_net s) i); eauto.
-    - destruct (nth_error (s_net s) i); [|eauto]. cbn [fst].
+    - (* ARemove *) cbn. eauto.
+    - (* ATick *) cbn. eauto.
+    - (* ADeliver *) destruct (nth_error (s_net s) i); [|eauto]. cbn [fst]. apply deliver_dgram_rp. exact Hp.
+    - (* ADrop *) destruct (nth_error (s_net s) i); cbn; eauto.
+    - (* ADup *) destruct (nth_error (s_net s) i); [|eauto]. cbn [fst].
       destruct (deliver_dgram_rp cf (set_net s (remove_nth i (s_net s))) d p Hp) as [q [Hq Hs]].
       destruct (poke_rp_some cf _ q Hq) as [q2 [Hq2 Hs2]].
       destruct (deliver_dgram_rp cf _ d q2 Hq2) as [q3 [Hq3 Hs3]]. exists q3. split; [assumption|congruence].
-    - pose proof (pump_rp cf pump_fuel s 0 p Hp) as H. destruct (pump pump_fuel cf s 0). exact H.
-    - destruct (s_rd s); eauto.
-    - destruct (s_rd s); [eauto|]. rewrite Hp. rewrite orb_true_r. eauto.
-    - destruct (is_acked _ _); eauto.
-    - destruct (poll (s_waits s)). cbn. eauto.
-    - destruct (s_rd s) as [r|]; [|eauto]. destruct (negb _); [eauto|]. destruct (hist_received _); cbn; eauto.
-    - destruct (s_rd s) as [r|]; [|eauto]. destruct (poll (rd_hwaits r)). cbn. eauto. }
+    - (* APump *) pose proof (pump_rp cf pump_fuel s 0 p Hp) as H. destruct (pump pump_fuel cf s 0). exact H.
+    - (* ATake *) destruct (s_rd s); cbn; eauto.
+    - (* AMatch *) destruct (s_rd s); [eauto|]. rewrite Hp. rewrite orb_true_r. eauto.
+    - (* ADelReader *) cbn. eauto.
+    - (* ADelPart *) cbn. eauto.
+    - (* AWfa *) destruct (is_acked _ _); cbn; eauto.
+    - (* AWfaPoll *) destruct (poll (s_waits s)). cbn. eauto.
+    - (* AWfh *) destruct (s_rd s) as [r|]; [|eauto]. destruct (negb _); [eauto|]. destruct (hist_received _); cbn; eauto.
+    - (* AWfhPoll *) destruct (s_rd s) as [r|]; [|eauto]. destruct (poll (rd_hwaits r)). cbn. eauto.
+    - (* AQuery *) cbn. eauto.
+    - (* ANow *) cbn. eauto. }
   destruct H as [q [Hq Hs]]. destruct (act cf s a) as [s1 o]. cbn [fst] in *.
   destruct (poke_rp_some cf s1 q Hq) as [q2 [Hq2 Hs2]]. exists q2. split; [assumption|congruence].
 Qed.
+
+Lemma pump_nil cf fuel s n : s_net s = [] -> pump fuel cf s n = (s, n).
+Proof. intros H. destruct fuel; cbn; [reflexivity|]. rewrite H. reflexivity. Qed.
 
 Lemma step_NInv cf s a : NInv s -> NInv (fst (step cf s a)).
 Proof.
   intros H. destruct (s_rp s) as [p|] eqn:Hp.
   { destruct (step_rp cf s a p Hp) as [q [Hq _]]. intros Hn. congruence. }
   destruct (H Hp) as [Hnet Hrd]. unfold step.
-  destruct a; cbn [act]; try (cbn; rewrite poke_rp_none by (cbn; assumption); intros _; cbn; tauto).
-  - pose proof (do_write_frame cf s key len sum) as (Hf1 & Hf2 & Hf3 & _).
+  assert (Triv : forall s1, s_rp s1 = None -> s_net s1 = [] ->
+            match s_rd s1 with Some r => rd_wp r = None | None => True end -> NInv (poke cf s1)).
+  { intros s1 A B C. rewrite poke_rp_none by assumption. intros _. tauto. }
+  destruct a; cbn [act].
+  - (* AWrite *) pose proof (do_write_frame cf s key len sum) as (Hf1 & Hf2 & Hf3 & _).
     destruct (do_write cf s key len sum) as [s1 code]. cbn [fst] in *.
-    rewrite poke_rp_none by congruence. intros _. rewrite Hf2, Hf3. tauto.
-  - rewrite Hnet. destruct i; cbn; rewrite poke_rp_none by assumption; exact H.
-  - rewrite Hnet. destruct i; cbn; rewrite poke_rp_none by assumption; exact H.
-  - rewrite Hnet. destruct i; cbn; rewrite poke_rp_none by assumption; exact H.
-  - unfold pump_fuel. cbn. rewrite Hnet. cbn. rewrite poke_rp_none by assumption. exact H.
-  - destruct (s_rd s) as [r|] eqn:Er; cbn; rewrite poke_rp_none by (cbn; assumption); [|exact H].
-    intros _; cbn; tauto.
-  - destruct (s_rd s) as [r|] eqn:Er; [cbn; rewrite poke_rp_none by assumption; exact H|].
-    rewrite Hp. rewrite orb_false_r. destruct (s_rdead s); cbn [orb].
-    + cbn. rewrite poke_rp_none by assumption. exact H.
-    + destruct (rxo_ok cf rel tl).
-      * cbn [fst]. intros Hn. exfalso.
-        match type of Hn with s_rp (poke cf (poke cf ?st)) = None =>
-          destruct (poke_rp_some cf st _ eq_refl) as [q [Hq _]];
-          destruct (poke_rp_some cf _ q Hq) as [q2 [Hq2 _]] end.
-        congruence.
-      * cbn. rewrite poke_rp_none by (cbn; assumption). intros _; cbn; tauto.
-  - rewrite Hp. cbn. rewrite poke_rp_none by (cbn; assumption). intros _; cbn; tauto.
-  - destruct (poll (s_waits s)). cbn. rewrite poke_rp_none by (cbn; assumption). intros _; cbn; tauto.
-  - destruct (s_rd s) as [r|] eqn:Er; [|cbn; rewrite poke_rp_none by assumption; exact H].
-    destruct (negb (rd_tl r)); [cbn; rewrite poke_rp_none by assumption; exact H|].
-    destruct (hist_received (rd_wp r)); cbn; rewrite poke_rp_none by (cbn; assumption); intros _; cbn; tauto.
-  - destruct (s_rd s) as [r|] eqn:Er; [|cbn; rewrite poke_rp_none by assumption; exact H].
-    destruct (poll (rd_hwaits r)). cbn; rewrite poke_rp_none by (cbn; assumption); intros _; cbn; tauto.
+    apply Triv; [congruence|congruence|rewrite Hf2; assumption].
+  - (* ARemove *) cbn [fst]. apply Triv; cbn; assumption.
+  - (* ATick *) cbn [fst]. apply Triv; cbn; assumption.
+  - (* ADeliver *) rewrite Hnet. destruct i; cbn [nth_error fst]; apply Triv; assumption.
+  - (* ADrop *) rewrite Hnet. destruct i; cbn [nth_error fst]; apply Triv; assumption.
+  - (* ADup *) rewrite Hnet. destruct i; cbn [nth_error fst]; apply Triv; assumption.
+  - (* APump *) rewrite (pump_nil cf pump_fuel s 0 Hnet). cbn [fst]. apply Triv; assumption.
+  - (* ATake *) destruct (s_rd s) as [r|] eqn:Er; cbn [fst]; apply Triv; cbn; try assumption.
+    rewrite Er. assumption.
+  - (* AMatch *) destruct (s_rd s) as [r|] eqn:Er.
+    + cbn [fst]. apply Triv; try assumption. rewrite Er. assumption.
+    + rewrite Hp. rewrite orb_false_r. destruct (s_rdead s).
+      * cbn [fst]. apply Triv; try assumption. rewrite Er. exact I.
+      * destruct (rxo_ok cf rel tl).
+        -- cbn [fst]. intros Hn. exfalso.
+           match type of Hn with s_rp (poke cf (poke cf ?st)) = None =>
+             destruct (poke_rp_some cf st _ eq_refl) as [q [Hq _]];
+             destruct (poke_rp_some cf _ q Hq) as [q2 [Hq2 _]] end.
+           congruence.
+        -- cbn [fst]. apply Triv; cbn; try assumption. reflexivity.
+  - (* ADelReader *) cbn [fst]. apply Triv; cbn; try assumption. exact I.
+  - (* ADelPart *) cbn [fst]. apply Triv; cbn; try assumption. exact I.
+  - (* AWfa *) destruct (is_acked (s_rp s) (s_last s)); cbn [fst]; apply Triv; cbn; assumption.
+  - (* AWfaPoll *) destruct (poll (s_waits s)). cbn [fst]. apply Triv; cbn; assumption.
+  - (* AWfh *) destruct (s_rd s) as [r|] eqn:Er; [|cbn [fst]; apply Triv; try assumption; rewrite Er; exact I].
+    destruct (negb (rd_tl r)); [cbn [fst]; apply Triv; try assumption; rewrite Er; assumption|].
+    destruct (hist_received (rd_wp r)); cbn [fst]; apply Triv; cbn; assumption.
+  - (* AWfhPoll *) destruct (s_rd s) as [r|] eqn:Er; [|cbn [fst]; apply Triv; try assumption; rewrite Er; exact I].
+    destruct (poll (rd_hwaits r)). cbn [fst]. apply Triv; cbn; assumption.
+  - (* AQuery *) cbn [fst]. apply Triv; assumption.
+  - (* ANow *) cbn [fst]. apply Triv; assumption.
 Qed.
 
 Lemma run_NInv cf l : forall s, NInv s -> NInv (run cf s l).
@@ -838,3 +857,421 @@ Qed.
 
 Lemma init_NInv : NInv init.
 Proof. intros _. cbn. tauto. Qed.
+
+(* ------------------------------------------------------------------ VOLATILE reliable readers *)
+(* B = the writer's last sequence number at match time.  For a RELIABLE reader proxy whose first
+   relevant sample is <= B (VOLATILE: first relevant = highest held sequence number), nothing with a
+   sequence number <= B is ever in flight towards the reader, buffered or presented. *)
+Definition above (B : Z) (c : change) : Prop := B < c_sn c.
+
+Record VInv (B : Z) (s : state) : Prop := mkVInv {
+  v_rp : match s_rp s with
+         | Some p => rp_rel p = true /\ (forall c, In c (s_changes s) -> rp_fr p < c_sn c -> B < c_sn c)
+         | None => False
+         end;
+  v_last : B <= s_last s;
+  v_net : Forall (data_dg (above B) (Z.lt B)) (s_net s);
+  v_rd : match s_rd s with None => True | Some r => RInv (above B) r end
+}.
+
+Lemma VInv_send B s out : VInv B s -> Forall (data_dg (above B) (Z.lt B)) out -> VInv B (send s out).
+Proof.
+  intros [H1 H2 H3 H4] Ho. constructor; cbn; try assumption.
+  apply Forall_app; split; [assumption|]. apply Forall_filter. assumption.
+Qed.
+
+Lemma VInv_set_rp B s p q : VInv B s -> s_rp s = Some p -> rp_static q = rp_static p -> VInv B (set_rp s (Some q)).
+Proof.
+  intros [H1 H2 H3 H4] Hp Hs. rewrite Hp in H1. apply static_fr in Hs. destruct Hs as (A & B' & _).
+  constructor; cbn; try assumption. rewrite A, B'. exact H1.
+Qed.
+Lemma VInv_set_waits B s w : VInv B s -> VInv B (set_waits s w).
+Proof. intros [H1 H2 H3 H4]. constructor; cbn; assumption. Qed.
+Lemma VInv_set_net B s n : VInv B s -> Forall (data_dg (above B) (Z.lt B)) n -> VInv B (set_net s n).
+Proof. intros [H1 H2 H3 H4] Hn. constructor; cbn; assumption. Qed.
+Lemma VInv_set_rd B s r : VInv B s -> RInv (above B) r -> VInv B (set_rd s (Some r)).
+Proof. intros [H1 H2 H3 H4] Hr. constructor; cbn; assumption. Qed.
+
+Lemma poke_VInv B cf s : VInv B s -> VInv B (poke cf s).
+Proof.
+  intros H. unfold poke. pose proof (v_rp B s H) as Hp. destruct (s_rp s) as [p|] eqn:Ep; [|contradiction].
+  destruct Hp as [Hrel Hch].
+  pose proof (write_message_static cf (s_now s) (s_changes s) p) as Hs.
+  assert (Ha : Forall (data_dg (above B) (Z.lt B)) (snd (write_message cf (s_now s) (s_changes s) p))).
+  { unfold write_message. rewrite Hrel. apply write_rel_data. exact Hch. }
+  destruct (write_message cf (s_now s) (s_changes s) p) as [p1 out]. cbn in Ha, Hs.
+  apply VInv_send; [eapply VInv_set_rp; eassumption|assumption].
+Qed.
+
+Lemma deliver_sub_W_VInv B cf s m : VInv B s -> data_sub (above B) (Z.lt B) m -> VInv B (deliver_sub_W cf s m).
+Proof.
+  intros H Hm. unfold deliver_sub_W. pose proof (v_rp B s H) as Hp.
+  destruct (s_rp s) as [p|] eqn:Ep; [|contradiction]. destruct Hp as [Hrel Hch].
+  destruct m; try assumption.
+  - pose proof (on_acknack_data (above B) (Z.lt B) cf (s_now s) (s_changes s) p base set count Hch) as Ha.
+    pose proof (on_acknack_static cf (s_now s) (s_changes s) p base set count) as Hs.
+    destruct (on_acknack cf (s_now s) (s_changes s) p base set count) as [[p1 out] some]. cbn in Ha, Hs.
+    assert (VInv B (send (set_rp s (Some p1)) out)) by (apply VInv_send; [eapply VInv_set_rp; eassumption|assumption]).
+    destruct (some && is_acked (Some p1) (s_last s)); [apply VInv_set_waits|]; assumption.
+  - cbn in Hm.
+    assert (Ha : Forall (data_dg (above B) (Z.lt B)) (snd (on_nackfrag cf (s_changes s) p sn base set count))).
+    { apply on_nackfrag_data; [|exact Hm]. intros c _ Hq. exact Hq. }
+    pose proof (on_nackfrag_static cf (s_changes s) p sn base set count) as Hs.
+    destruct (on_nackfrag cf (s_changes s) p sn base set count) as [p1 out]. cbn in Ha, Hs.
+    apply VInv_send; [eapply VInv_set_rp; eassumption|assumption].
+Qed.
+
+Lemma fold_deliver_sub_W_VInv B cf l : forall s, VInv B s -> Forall (data_sub (above B) (Z.lt B)) l ->
+  VInv B (fold_left (deliver_sub_W cf) l s).
+Proof.
+  induction l; intros s H Hl; cbn; [assumption|]. inversion Hl; subst.
+  apply IHl; [apply deliver_sub_W_VInv; assumption|assumption].
+Qed.
+
+Lemma deliver_dgram_VInv B cf s d : VInv B s -> data_dg (above B) (Z.lt B) d -> VInv B (deliver_dgram cf s d).
+Proof.
+  intros H Hd. unfold deliver_dgram. destruct (dg_toR d).
+  - destruct (s_rdead s); [assumption|]. destruct (s_rd s) as [r|] eqn:Er; [|assumption].
+    destruct (deliver_subs_R cf r (dg_subs d) []) as [r1 out] eqn:E.
+    pose proof (v_rd B s H) as Hr. rewrite Er in Hr.
+    destruct (deliver_subs_R_RInv (above B) (Z.lt B) (fun c Hc => Hc) cf (dg_subs d) r [] r1 out Hd Hr (Forall_nil _) E)
+      as [Hr1 Ho].
+    apply VInv_send; [apply VInv_set_rd; assumption|assumption].
+  - apply fold_deliver_sub_W_VInv; assumption.
+Qed.
+
+Lemma VInv_take_net B s i d :
+  VInv B s -> nth_error (s_net s) i = Some d ->
+  VInv B (set_net s (remove_nth i (s_net s))) /\ data_dg (above B) (Z.lt B) d.
+Proof.
+  intros H E. split.
+  - apply VInv_set_net; [assumption|]. apply Forall_remove_nth. apply (v_net B s H).
+  - eapply Forall_nth_error; [apply (v_net B s H)|exact E].
+Qed.
+
+Lemma pump_VInv B cf fuel : forall s n, VInv B s -> VInv B (fst (pump fuel cf s n)).
+Proof.
+  induction fuel as [|f IH]; intros s n H; cbn [pump]; [assumption|].
+  destruct (s_net s) as [|d t] eqn:En; [assumption|].
+  apply IH. apply poke_VInv.
+  assert (Hd : data_dg (above B) (Z.lt B) d /\ Forall (data_dg (above B) (Z.lt B)) t).
+  { pose proof (v_net B s H) as Hn. rewrite En in Hn. inversion Hn; subst. split; assumption. }
+  apply deliver_dgram_VInv; [apply VInv_set_net; tauto|tauto].
+Qed.
+
+Lemma do_write_VInv B cf s key len sum : VInv B s -> VInv B (fst (do_write cf s key len sum)).
+Proof.
+  intros H. unfold do_write.
+  match goal with |- context [if ?b then (s, 10) else _] => destruct b end; [assumption|].
+  match goal with |- context [let '(chs1, inst1) := ?X in _] => destruct X as [chs1 inst1] eqn:E end.
+  assert (Hc : incl chs1 (s_changes s)).
+  { match type of E with (match ?o with _ => _ end) = _ => destruct o end; inversion E; subst; [|apply incl_refl].
+    intros x Hx. apply filter_In in Hx. tauto. }
+  destruct H as [H1 H2 H3 H4]. cbn [fst]. constructor; cbn; try assumption; [|lia].
+  destruct (s_rp s) as [p|]; [|contradiction]. destruct H1 as [Hrel Hch]. split; [assumption|].
+  intros c Hin Hlt. apply in_app_or in Hin. destruct Hin as [Hin|[<-|[]]]; [apply Hch; auto|cbn; lia].
+Qed.
+
+Lemma act_VInv B cf s a : VInv B s -> VInv B (fst (act cf s a)).
+Proof.
+  intros H. destruct a; cbn [act].
+  - (* AWrite *) pose proof (do_write_VInv B cf s key len sum H) as Hw.
+    destruct (do_write cf s key len sum) as [s1 code]. exact Hw.
+  - (* ARemove *) destruct H as [H1 H2 H3 H4]. constructor; cbn; try assumption.
+    destruct (s_rp s) as [p|]; [|contradiction]. destruct H1 as [Hrel Hch]. split; [assumption|].
+    intros c Hin. apply filter_In in Hin. apply Hch. tauto.
+  - (* ATick *) destruct H as [H1 H2 H3 H4]. constructor; cbn; assumption.
+  - (* ADeliver *) destruct (nth_error (s_net s) i) as [d|] eqn:E; [|assumption]. cbn [fst].
+    destruct (VInv_take_net B s i d H E) as [Hs Hd]. apply deliver_dgram_VInv; assumption.
+  - (* ADrop *) destruct (nth_error (s_net s) i) as [d|] eqn:E; [|assumption]. cbn [fst].
+    destruct (VInv_take_net B s i d H E) as [Hs Hd]. assumption.
+  - (* ADup *) destruct (nth_error (s_net s) i) as [d|] eqn:E; [|assumption]. cbn [fst].
+    destruct (VInv_take_net B s i d H E) as [Hs Hd].
+    apply deliver_dgram_VInv; [|assumption]. apply poke_VInv. apply deliver_dgram_VInv; assumption.
+  - (* APump *) pose proof (pump_VInv B cf pump_fuel s 0 H) as Hp.
+    destruct (pump pump_fuel cf s 0) as [s1 n]. exact Hp.
+  - (* ATake *) destruct (s_rd s) as [r|] eqn:Er; [|assumption]. cbn [fst].
+    pose proof (v_rd B s H) as Hr. rewrite Er in Hr.
+    destruct H as [H1 H2 H3 H4]. constructor; cbn; try assumption.
+  - (* AMatch *) destruct (s_rd s) as [r|] eqn:Er; [assumption|].
+    pose proof (v_rp B s H) as Hp. destruct (s_rp s) as [p|]; [|contradiction].
+    rewrite orb_true_r. assumption.
+  - (* ADelReader *) destruct H as [H1 H2 H3 H4]. constructor; cbn; try assumption. exact I.
+  - (* ADelPart *) destruct H as [H1 H2 H3 H4]. constructor; cbn; try assumption. exact I.
+  - (* AWfa *) destruct (is_acked (s_rp s) (s_last s)); cbn [fst]; apply VInv_set_waits; assumption.
+  - (* AWfaPoll *) destruct (poll (s_waits s)). cbn [fst]. apply VInv_set_waits; assumption.
+  - (* AWfh *) destruct (s_rd s) as [r|] eqn:Er; [|assumption].
+    pose proof (v_rd B s H) as Hr. rewrite Er in Hr.
+    destruct (negb (rd_tl r)); [assumption|].
+    destruct (hist_received (rd_wp r)); cbn [fst]; apply VInv_set_rd; assumption.
+  - (* AWfhPoll *) destruct (s_rd s) as [r|] eqn:Er; [|assumption].
+    pose proof (v_rd B s H) as Hr. rewrite Er in Hr.
+    destruct (poll (rd_hwaits r)). cbn [fst]. apply VInv_set_rd; assumption.
+  - assumption.
+  - assumption.
+Qed.
+
+Lemma step_VInv B cf s a : VInv B s -> VInv B (fst (step cf s a)).
+Proof.
+  intros H. unfold step. pose proof (act_VInv B cf s a H) as Ha.
+  destruct (act cf s a) as [s1 o]. cbn [fst] in *. apply poke_VInv. assumption.
+Qed.
+
+Lemma run_VInv B cf l : forall s, VInv B s -> VInv B (run cf s l).
+Proof.
+  unfold run. induction l as [|a t IH]; intros s H; cbn; [assumption|].
+  pose proof (step_VInv B cf s a H) as Hs. destruct (step cf s a) as [s1 o]. cbn [fst] in Hs.
+  specialize (IH s1 Hs). destruct (run_out cf s1 t) as [s2 os]. exact IH.
+Qed.
+
+Lemma run_app cf l1 l2 s : run cf s (l1 ++ l2) = run cf (run cf s l1) l2.
+Proof.
+  unfold run. rewrite !run_out_fst. rewrite fold_left_app. reflexivity.
+Qed.
+
+Lemma run_cons cf a l s : run cf s (a :: l) = run cf (fst (step cf s a)) l.
+Proof. unfold run. rewrite !run_out_fst. reflexivity. Qed.
+
+(* the state right after an effective match of a RELIABLE VOLATILE reader satisfies VInv with B = s_last *)
+Lemma match_VInv cf s : NInv s -> s_rd s = None -> s_rp s = None -> s_rdead s = false -> w_rel cf = true ->
+  VInv (s_last s) (fst (step cf s (AMatch true false))).
+Proof.
+  intros HN Hrd Hrp Hdead Hrel. unfold step. cbn [act]. rewrite Hrd, Hrp, Hdead. cbn [orb].
+  destruct (HN Hrp) as [Hnet _].
+  unfold rxo_ok. rewrite Hrel. cbn [implb andb].
+  cbn [fst]. apply poke_VInv. apply poke_VInv.
+  constructor; cbn.
+  - split; [reflexivity|]. intros c Hin Hlt. apply in_le_last_sn in Hin. lia.
+  - lia.
+  - rewrite Hnet. constructor.
+  - unfold RInv, WOk; cbn. repeat split; constructor.
+Qed.
+
+Lemma VInv_presented B s : VInv B s -> Forall (above B) (presented s).
+Proof.
+  intros H. unfold presented. pose proof (v_rd B s H) as Hr.
+  destruct (s_rd s) as [r|]; [|constructor]. unfold RInv in Hr. destruct (rd_wp r).
+  - apply Hr.
+  - rewrite Hr. constructor.
+Qed.
+
+(* A RELIABLE VOLATILE reader never presents a sample that was written before it was matched *)
+Theorem volatile_no_history_reliable cf before after :
+  let s1 := run cf init before in
+  s_rd s1 = None -> s_rp s1 = None -> s_rdead s1 = false -> w_rel cf = true ->
+  let s := run cf init (before ++ AMatch true false :: after) in
+  forall c, In c (s_log s1) -> ~ In c (presented s).
+Proof.
+  intros s1 Hrd Hrp Hdead Hrel s c Hc Hin. subst s. rewrite run_app in Hin. fold s1 in Hin. rewrite run_cons in Hin.
+  assert (HS : SInv s1) by (apply run_SInv; apply init_SInv).
+  assert (HN : NInv s1) by (apply run_NInv; apply init_NInv).
+  assert (Hle : c_sn c <= s_last s1).
+  { pose proof (si_le s1 HS) as Hl. rewrite Forall_forall in Hl. auto. }
+  pose proof (match_VInv cf s1 HN Hrd Hrp Hdead Hrel) as HV.
+  pose proof (run_VInv (s_last s1) cf after _ HV) as HV2.
+  apply VInv_presented in HV2. rewrite Forall_forall in HV2. specialize (HV2 c Hin). unfold above in HV2. lia.
+Qed.
+
+(* ------------------------------------------------------------------ the history cache only changes by write/remove *)
+Definition core (s : state) := (s_changes s, s_last s, s_inst s, s_log s, s_now s).
+
+Lemma poke_core cf s : core (poke cf s) = core s.
+Proof. unfold poke. destruct (s_rp s); [|reflexivity]. destruct (write_message _ _ _ _). reflexivity. Qed.
+
+Lemma deliver_sub_W_core cf s m : core (deliver_sub_W cf s m) = core s.
+Proof.
+  unfold deliver_sub_W. destruct (s_rp s); [|reflexivity]. destruct m; try reflexivity.
+  - destruct (on_acknack _ _ _ _ _ _ _) as [[p1 o] sm]. destruct (sm && _); reflexivity.
+  - destruct (on_nackfrag _ _ _ _ _ _ _). reflexivity.
+Qed.
+
+Lemma deliver_dgram_core cf s d : core (deliver_dgram cf s d) = core s.
+Proof.
+  unfold deliver_dgram. destruct (dg_toR d).
+  - destruct (s_rdead s); [reflexivity|]. destruct (s_rd s); [|reflexivity].
+    destruct (deliver_subs_R _ _ _ _). reflexivity.
+  - revert s. induction (dg_subs d) as [|m t IH]; intros s; cbn [fold_left]; [reflexivity|].
+    rewrite IH. apply deliver_sub_W_core.
+Qed.
+
+Lemma pump_core cf fuel : forall s n, core (fst (pump fuel cf s n)) = core s.
+Proof.
+  induction fuel as [|f IH]; intros s n; cbn [pump]; [reflexivity|].
+  destruct (s_net s) as [|d t]; [reflexivity|].
+  rewrite IH, poke_core, deliver_dgram_core. reflexivity.
+Qed.
+
+Lemma core_proj s1 s2 : core s1 = core s2 ->
+  s_changes s1 = s_changes s2 /\ s_last s1 = s_last s2 /\ s_inst s1 = s_inst s2 /\ s_log s1 = s_log s2 /\
+  s_now s1 = s_now s2.
+Proof. unfold core. intros H. inversion H. tauto. Qed.
+
+Lemma do_write_spec cf s key len sum :
+  let s1 := fst (do_write cf s key len sum) in
+  (s1 = s /\ snd (do_write cf s key len sum) = 10) \/
+  (exists chs1, incl chs1 (s_changes s) /\
+     s_changes s1 = chs1 ++ [mkCh (s_last s + 1) key len sum] /\ s_last s1 = s_last s + 1 /\
+     s_log s1 = s_log s ++ [mkCh (s_last s + 1) key len sum] /\ snd (do_write cf s key len sum) = 0 /\
+     (depth cf = 0 -> chs1 = s_changes s)).
+Proof.
+  unfold do_write.
+  match goal with |- context [if ?b then (s, 10) else _] => destruct b end; [left; cbn; tauto|].
+  right.
+  match goal with |- context [let '(chs1, inst1) := ?X in _] => destruct X as [chs1 inst1] eqn:E end.
+  exists chs1. cbn. repeat split.
+  - match type of E with (match ?o with _ => _ end) = _ => destruct o end; inversion E; subst; [|apply incl_refl].
+    intros x Hx. apply filter_In in Hx. tauto.
+  - intros Hd. rewrite Hd in E. cbn in E. inversion E. reflexivity.
+Qed.
+
+Lemma step_last cf s a : s_last s <= s_last (fst (step cf s a)).
+Proof.
+  unfold step.
+  assert (H : s_last s <= s_last (fst (act cf s a))).
+  { destruct a; cbn [act].
+    - pose proof (do_write_spec cf s key len sum) as Hw. destruct (do_write cf s key len sum) as [s1 code].
+      cbn [fst snd] in *. destruct Hw as [[-> _]|[chs1 (_ & _ & -> & _)]]; lia.
+    - cbn. lia.
+    - cbn. lia.
+    - destruct (nth_error (s_net s) i); [|cbn; lia]. cbn [fst].
+      destruct (core_proj _ _ (deliver_dgram_core cf (set_net s (remove_nth i (s_net s))) d)) as (_ & -> & _). cbn. lia.
+    - destruct (nth_error (s_net s) i); cbn; lia.
+    - destruct (nth_error (s_net s) i); [|cbn; lia]. cbn [fst].
+      destruct (core_proj _ _ (deliver_dgram_core cf (poke cf (deliver_dgram cf (set_net s (remove_nth i (s_net s))) d)) d)) as (_ & -> & _).
+      destruct (core_proj _ _ (poke_core cf (deliver_dgram cf (set_net s (remove_nth i (s_net s))) d))) as (_ & -> & _).
+      destruct (core_proj _ _ (deliver_dgram_core cf (set_net s (remove_nth i (s_net s))) d)) as (_ & -> & _). cbn. lia.
+    - pose proof (pump_core cf pump_fuel s 0) as Hc. destruct (pump pump_fuel cf s 0) as [s1 n]. cbn [fst] in *.
+      destruct (core_proj _ _ Hc) as (_ & -> & _). lia.
+    - destruct (s_rd s); cbn; lia.
+    - destruct (s_rd s); [cbn; lia|]. destruct (s_rdead s || _); [cbn; lia|].
+      destruct (rxo_ok cf rel tl); cbn [fst]; [|cbn; lia].
+      match goal with |- _ <= s_last (poke cf ?st) => destruct (core_proj _ _ (poke_core cf st)) as (_ & -> & _) end.
+      cbn. lia.
+    - cbn. lia.
+    - cbn. lia.
+    - destruct (is_acked _ _); cbn; lia.
+    - destruct (poll (s_waits s)). cbn. lia.
+    - destruct (s_rd s) as [r|]; [|cbn; lia]. destruct (negb _); [cbn; lia|]. destruct (hist_received _); cbn; lia.
+    - destruct (s_rd s) as [r|]; [|cbn; lia]. destruct (poll (rd_hwaits r)). cbn. lia.
+    - cbn. lia.
+    - cbn. lia. }
+  destruct (act cf s a) as [s1 o]. cbn [fst] in *.
+  destruct (core_proj _ _ (poke_core cf s1)) as (_ & -> & _). exact H.
+Qed.
+
+Lemma run_last cf l : forall s, s_last s <= s_last (run cf s l).
+Proof.
+  induction l as [|a t IH]; intros s; [cbn; lia|]. rewrite run_cons.
+  pose proof (step_last cf s a). specialize (IH (fst (step cf s a))). lia.
+Qed.
+
+Lemma last_sn_le s : SInv s -> 0 <= s_last s -> last_sn (s_changes s) <= s_last s.
+Proof.
+  intros HS H0. unfold last_sn. destruct (zmax_list (sns (s_changes s))) as [m|] eqn:E; [|assumption].
+  assert (Hin : In m (sns (s_changes s))).
+  { clear - E. revert m E. induction (sns (s_changes s)) as [|x t IH]; intros m E; [discriminate|].
+    cbn in E. destruct (zmax_list t) as [m'|] eqn:Et.
+    - inversion E; subst. destruct (Z.max_spec x m') as [[_ ->]|[_ ->]]; [right; auto|left; reflexivity].
+    - inversion E; subst. left. reflexivity. }
+  unfold sns in Hin. apply in_map_iff in Hin. destruct Hin as [c [<- Hc]].
+  apply (si_chs s HS) in Hc. pose proof (si_le s HS) as Hl. rewrite Forall_forall in Hl. auto.
+Qed.
+
+(* the log only grows at the end, with strictly larger sequence numbers *)
+Ltac log_same := exists []; rewrite app_nil_r; split; [reflexivity|constructor].
+
+Lemma step_log_grow cf s a :
+  exists e, s_log (fst (step cf s a)) = s_log s ++ e /\ Forall (fun d => s_last s < c_sn d) e.
+Proof.
+  unfold step.
+  assert (Hact : exists e, s_log (fst (act cf s a)) = s_log s ++ e /\ Forall (fun d => s_last s < c_sn d) e).
+  { destruct a; cbn [act].
+    - (* AWrite *) pose proof (do_write_spec cf s key len sum) as Hw. destruct (do_write cf s key len sum) as [s1 code].
+      cbn [fst snd] in *. destruct Hw as [[-> _]|[chs1 (_ & _ & _ & -> & _)]].
+      + log_same.
+      + eexists. split; [reflexivity|]. constructor; [cbn; lia|constructor].
+    - (* ARemove *) log_same.
+    - (* ATick *) log_same.
+    - (* ADeliver *) destruct (nth_error (s_net s) i); [|log_same].
+      cbn [fst]. destruct (core_proj _ _ (deliver_dgram_core cf (set_net s (remove_nth i (s_net s))) d)) as (_ & _ & _ & -> & _).
+      log_same.
+    - (* ADrop *) destruct (nth_error (s_net s) i); log_same.
+    - (* ADup *) destruct (nth_error (s_net s) i); [|log_same].
+      cbn [fst].
+      destruct (core_proj _ _ (deliver_dgram_core cf (poke cf (deliver_dgram cf (set_net s (remove_nth i (s_net s))) d)) d)) as (_ & _ & _ & -> & _).
+      destruct (core_proj _ _ (poke_core cf (deliver_dgram cf (set_net s (remove_nth i (s_net s))) d))) as (_ & _ & _ & -> & _).
+      destruct (core_proj _ _ (deliver_dgram_core cf (set_net s (remove_nth i (s_net s))) d)) as (_ & _ & _ & -> & _).
+      log_same.
+    - (* APump *) pose proof (pump_core cf pump_fuel s 0) as Hc. destruct (pump pump_fuel cf s 0) as [s1 n]. cbn [fst] in *.
+      destruct (core_proj _ _ Hc) as (_ & _ & _ & -> & _). log_same.
+    - (* ATake *) destruct (s_rd s); log_same.
+    - (* AMatch *) destruct (s_rd s); [log_same|].
+      destruct (s_rdead s || _); [log_same|].
+      destruct (rxo_ok cf rel tl); cbn [fst]; [|log_same].
+      match goal with |- context [poke cf ?st] => destruct (core_proj _ _ (poke_core cf st)) as (_ & _ & _ & -> & _) end.
+      log_same.
+    - (* ADelReader *) log_same.
+    - (* ADelPart *) log_same.
+    - (* AWfa *) destruct (is_acked _ _); log_same.
+    - (* AWfaPoll *) destruct (poll (s_waits s)). log_same.
+    - (* AWfh *) destruct (s_rd s) as [r|]; [|log_same].
+      destruct (negb _); [log_same|]. destruct (hist_received _); log_same.
+    - (* AWfhPoll *) destruct (s_rd s) as [r|]; [|log_same]. destruct (poll (rd_hwaits r)). log_same.
+    - (* AQuery *) log_same.
+    - (* ANow *) log_same. }
+  destruct Hact as [e [He Hf]]. destruct (act cf s a) as [sa o]. cbn [fst] in *.
+  destruct (core_proj _ _ (poke_core cf sa)) as (_ & _ & _ & -> & _). exists e. split; assumption.
+Qed.
+
+Lemma run_log_grow cf l : forall s, exists ext, s_log (run cf s l) = s_log s ++ ext /\
+  Forall (fun d => s_last s < c_sn d) ext.
+Proof.
+  induction l as [|a t IH]; intros s.
+  - exists []. cbn. rewrite app_nil_r. split; [reflexivity|constructor].
+  - rewrite run_cons. destruct (step_log_grow cf s a) as [e [He Hf]].
+    destruct (IH (fst (step cf s a))) as [ext [Hext Hfe]].
+    exists (e ++ ext). rewrite Hext, He, app_assoc. split; [reflexivity|].
+    apply Forall_app; split; [assumption|].
+    eapply Forall_impl; [|exact Hfe]. cbn. intros d Hd. pose proof (step_last cf s a). lia.
+Qed.
+
+(* The boundary: the first relevant sample of the new proxy is 0 for a TRANSIENT_LOCAL reader and the
+   highest held sequence number for a VOLATILE one; every change held at that moment is at or below it,
+   every sample written afterwards is above it: a sample is classified by its sequence number only. *)
+Theorem match_boundary cf before rel tl :
+  let s1 := run cf init before in
+  s_rd s1 = None -> s_rp s1 = None -> s_rdead s1 = false -> rxo_ok cf rel tl = true ->
+  let s2 := fst (step cf s1 (AMatch rel tl)) in
+  exists p, s_rp s2 = Some p /\ rp_rel p = rel /\
+    rp_fr p = (if tl then 0 else last_sn (s_changes s1)) /\
+    rp_fr p <= s_last s1 /\
+    (tl = false -> forall c, In c (s_changes s1) -> c_sn c <= rp_fr p) /\
+    (forall c, In c (s_log s1) -> c_sn c <= s_last s1) /\
+    (forall after c, In c (s_log (run cf s2 after)) -> ~ In c (s_log s1) -> s_last s1 < c_sn c).
+Proof.
+  intros s1 Hrd Hrp Hdead Hrxo s2.
+  assert (HS : SInv s1) by (apply run_SInv; apply init_SInv).
+  assert (H0 : 0 <= s_last s1).
+  { pose proof (run_last cf before init) as Hl. change (s_last init) with 0 in Hl. exact Hl. }
+  set (p0 := new_rproxy rel tl (s_changes s1)).
+  assert (Hs2 : exists q, s_rp s2 = Some q /\ rp_static q = rp_static p0).
+  { subst s2. unfold step. cbn [act]. rewrite Hrd, Hrp, Hdead, Hrxo. cbn [orb fst].
+    match goal with |- context [poke cf (poke cf ?st)] =>
+      destruct (poke_rp_some cf st p0 eq_refl) as [q [Hq Hqs]];
+      destruct (poke_rp_some cf _ q Hq) as [q2 [Hq2 Hqs2]] end.
+    exists q2. split; [assumption|congruence]. }
+  destruct Hs2 as [q [Hq Hqs]]. apply static_fr in Hqs. destruct Hqs as (Hfr & Hrel & _).
+  exists q. split; [assumption|]. split; [rewrite Hrel; reflexivity|].
+  assert (Hfr' : rp_fr q = (if tl then 0 else last_sn (s_changes s1))) by (rewrite Hfr; reflexivity).
+  split; [assumption|]. split; [|split; [|split]].
+  - rewrite Hfr'. destruct tl; [assumption|]. apply last_sn_le; assumption.
+  - intros -> c Hc. rewrite Hfr'. apply in_le_last_sn. assumption.
+  - intros c Hc. pose proof (si_le s1 HS) as Hl. rewrite Forall_forall in Hl. auto.
+  - intros after c Hin Hnot.
+    assert (HS3 : SInv (run cf s2 after)) by (apply run_SInv; apply step_SInv; assumption).
+    pose proof (run_log_grow cf) as Hgrow.
+    destruct (Hgrow (AMatch rel tl :: after) s1) as [ext [Hext Hfe]].
+    rewrite run_cons in Hext. fold s2 in Hext. rewrite Hext in Hin.
+    apply in_app_or in Hin. destruct Hin as [Hin|Hin]; [contradiction|].
+    rewrite Forall_forall in Hfe. auto.
+Qed.
